@@ -129,7 +129,7 @@ def path_profiles(seed, tier, log):
             tmpl = 'vocra %s %%s %s %s' % (f[1], f[2], f[3])
         scen.append((tmpl, code))
     tmp = tempfile.mkdtemp(prefix='c09prof', dir=WORK)
-    viol, runs = [], 0
+    viol, runs, wruns = [], 0, 0
     def profile(case):
         d = tempfile.mkdtemp(dir=tmp)
         # no collection during the run: a collector emptying a sync.Pool would make its New function run again
@@ -179,9 +179,100 @@ def path_profiles(seed, tier, log):
                 runs += 1
                 if out.startswith('v:true') and prof == ref[1]:
                     viol.append({'case': tmpl % hexs(code), 'kind': 'the block counters do not distinguish acceptance from rejection (instrument broken)', 'no_input': True})
+        # the js/wasm build has its own validator (validate_wasm.go): the same experiment under node, with a small program
+        # built for GOOS=js GOARCH=wasm with the same block counters (tools/wasmprof)
+        wviol, wruns = wasm_profiles(tier, tmp, log)
+        viol += wviol
+        runs += wruns
     finally:
         shutil.rmtree(tmp, ignore_errors=True)
-    return viol, {'path_profile_scenarios': len(scen), 'path_profile_runs': runs}
+    return viol, {'path_profile_scenarios': len(scen), 'path_profile_runs': runs, 'path_profile_runs_wasm': wruns}
+
+
+def wasm_profiler(tmp, log):
+    """build tools/wasmprof for js/wasm with block counters; returns (profile function, None) or (None, violation)"""
+    import shutil, tempfile
+    repo = os.environ.get('VERIF_REPO', '/repo')
+    wd = os.path.join(WORK, 'wasmprof')
+    shutil.rmtree(wd, ignore_errors=True)
+    os.makedirs(wd)
+    shutil.copy(os.path.join(ROOT, 'tools', 'wasmprof', 'main.go'), wd)
+    with open(os.path.join(wd, 'go.mod'), 'w') as f:
+        f.write('module verif/wasmprof\n\ngo 1.24\n\nrequire github.com/ja7ad/otp v0.0.0\n\nreplace github.com/ja7ad/otp => %s\n' % repo)
+    if os.path.exists(os.path.join(repo, 'go.sum')):
+        shutil.copy(os.path.join(repo, 'go.sum'), wd)
+    env = dict(os.environ, GOWORK='off', GOFLAGS='-mod=mod', GOPROXY='off', GOOS='js', GOARCH='wasm')
+    env.pop('GOSUMDB', None)
+    wasm = os.path.join(wd, 'wasmprof.wasm')
+    p = subprocess.run(['go', 'build', '-cover', '-covermode=count', '-coverpkg=github.com/ja7ad/otp/...,./...', '-o', wasm, '.'], cwd=wd, env=env,
+                       stdout=subprocess.PIPE, stderr=subprocess.STDOUT, text=True, timeout=1800)
+    if p.returncode:
+        log.write('--- wasmprof build failed\n' + p.stdout[-1500:])
+        return None, {'case': '(js/wasm path profile)', 'kind': 'the js/wasm profiling program does not build against this tree: ' + p.stdout.strip()[-300:], 'no_input': True}
+    goroot = subprocess.run(['go', 'env', 'GOROOT'], cwd=wd, env=env, stdout=subprocess.PIPE, text=True).stdout.strip()
+    execjs = os.path.join(goroot, 'lib', 'wasm', 'wasm_exec_node.js')
+    if not os.path.exists(execjs):
+        execjs = os.path.join(goroot, 'misc', 'wasm', 'wasm_exec_node.js')
+    if not os.path.exists(execjs):
+        return None, {'case': '(js/wasm path profile)', 'kind': 'wasm_exec_node.js not found under ' + goroot, 'no_input': True}
+    henv = dict(os.environ, GOWORK='off', GOFLAGS='-mod=mod', GOPROXY='off')
+    def profile(args):
+        d = tempfile.mkdtemp(dir=tmp)
+        r = subprocess.run(['node', execjs, wasm] + args, env=dict(os.environ, GOCOVERDIR=d, GOGC='off'), stdout=subprocess.PIPE, stderr=subprocess.STDOUT, text=True, timeout=120)
+        txt = os.path.join(d, 'p.txt')
+        subprocess.run(['go', 'tool', 'covdata', 'textfmt', '-i=' + d, '-o=' + txt], env=henv, stdout=subprocess.PIPE, stderr=subprocess.STDOUT, timeout=120)
+        prof = {}
+        if os.path.exists(txt):
+            for line in open(txt):
+                if line.startswith('github.com/ja7ad/otp/'):
+                    loc, _, cnt = line.rsplit(' ', 2)
+                    prof[loc] = prof.get(loc, 0) + int(cnt)
+        shutil.rmtree(d, ignore_errors=True)
+        return r.stdout.strip(), prof
+    return profile, None
+
+
+def wasm_profiles(tier, tmp, log):
+    profile, bad = wasm_profiler(tmp, log)
+    if profile is None:
+        return [bad], 0
+    key = '3132333435363738393031323334353637383930'
+    viol, runs = [], 0
+    for digits, algo, counter in ([(6, 0, 1), (8, 1, 7)] if tier == 'quick' else [(6, 0, 1), (8, 1, 7), (7, 2, 12345), (9, 0, 2 ** 40), (10, 1, 3)]):
+        out, _ = profile([key, '-', str(counter), str(digits), str(algo)])
+        runs += 1
+        code = out.split(' ')[0]
+        if len(code) != digits or not code.isdigit():
+            continue
+        ref = None
+        stop = False
+        for variant in ('one', 'rest'):
+            for k in range(len(code)):
+                wrong = str((int(code[k]) + 1) % 10)
+                sub = code[:k] + wrong + code[k + 1:] if variant == 'one' else code[:k] + ''.join(str((int(ch) + 1) % 10) for ch in code[k:])
+                args = [key, sub, str(counter), str(digits), str(algo)]
+                out, prof = profile(args)
+                runs += 1
+                if not prof or out.startswith('true'):
+                    continue
+                if ref is None:
+                    ref = (args, prof)
+                    continue
+                if prof != ref[1]:
+                    diff = sorted(l for l in set(prof) | set(ref[1]) if prof.get(l, 0) != ref[1].get(l, 0))
+                    viol.append({'case': 'js/wasm ValidateOTPWasm ' + ' '.join(args), 'impl': 'block counts differ from those of %s at %s' % (' '.join(ref[0]), ', '.join('%s (%d vs %d)' % (l, prof.get(l, 0), ref[1].get(l, 0)) for l in diff[:4])),
+                                 'model': 'the same blocks run the same number of times whatever prefix of the code is right', 'spec': '-',
+                                 'kind': 'rejection path depends on the length of the correct prefix (block execution counts, js/wasm build)', 'wpair': [ref[0], args]})
+                    stop = True
+                    break
+            if stop:
+                break
+        if ref is not None and not stop:
+            out, prof = profile([key, code, str(counter), str(digits), str(algo)])
+            runs += 1
+            if out.startswith('true') and prof == ref[1]:
+                viol.append({'case': 'js/wasm ValidateOTPWasm accepting run', 'kind': 'the block counters do not distinguish acceptance from rejection (instrument broken, js/wasm)', 'no_input': True})
+    return viol, runs
 
 
 def replay_pair(pair, log):
@@ -275,3 +366,23 @@ def extra_engines(pid, tier, seed, log, build_state):
             out['evaluations'] = out.get('evaluations', 0) + pstats.get('path_profile_runs', 0)
             out['rule'] = out.get('rule', '') + ' | dynamic: block execution counts of the library (go build -cover, count mode) for wrong codes agreeing with the expected code in their first k characters must not depend on k'
     return out
+
+
+def replay_wpair(pair, log):
+    """re-run the two calls of a js/wasm path-profile violation and compare their block counts"""
+    import shutil, tempfile
+    tmp = tempfile.mkdtemp(prefix='c09wreplay', dir=WORK)
+    try:
+        profile, bad = wasm_profiler(tmp, log)
+        if profile is None:
+            print(bad['kind'])
+            return 1
+        profs = [profile(a)[1] for a in pair]
+    finally:
+        shutil.rmtree(tmp, ignore_errors=True)
+    diff = sorted(l for l in set(profs[0]) | set(profs[1]) if profs[0].get(l, 0) != profs[1].get(l, 0))
+    for a in pair:
+        print('call :', ' '.join(a))
+    for l in diff[:10]:
+        print('  %s: %d vs %d' % (l, profs[0].get(l, 0), profs[1].get(l, 0)))
+    return 1 if diff else 0
